@@ -62,10 +62,15 @@ long env_distance__FI_FI (struct FwdIt first, struct FwdIt last);
 void env_advance__pFI_l (struct FwdIt *it, long n);
 Elem *env_copy__FI_FI_pE (struct FwdIt first, struct FwdIt last, Elem *d);
 void env_op_call__pG_out (struct Gen *g, Elem *out);
+/* std::initializer_list<value_type>: an array of n elements starting at b ([support.initlist]) */
+const Elem *env_IL_begin__v (const struct IList *il);
+const Elem *env_IL_end__v (const struct IList *il);
+unsigned long env_IL_size__v (const struct IList *il);
 struct svcit; struct svit;
 _Bool env_equal__svcit_svcit_svcit (struct svcit f1, struct svcit l1, struct svcit f2);
 _Bool env_lexicographical_compare__svcit_svcit_svcit_svcit (struct svcit f1, struct svcit l1, struct svcit f2, struct svcit l2);
 struct svit env_remove__svit_svit_pcE (struct svit first, struct svit last, const Elem *value);
+struct svit env_remove_if__svit_svit_P (struct svit first, struct svit last, struct Pred pred);
 
 /* byte copies of trivially copyable elements (C13) */
 void *env_memcpy__pv_pcv_ul (void *dst, const void *src, unsigned long nbytes);
